@@ -2,7 +2,7 @@
    (bool/option/list/prod/unit/sumbool mapped to OCaml's); N, Z, positive and
    nat stay the extracted inductive datatypes.  No Extract Constant. *)
 From Coq Require Extraction ExtrOcamlBasic.
-From SyModel Require Import Adler Delta Filter Bisync Engine Wire Sparse Verify.
+From SyModel Require Import Adler Delta Filter Bisync Engine Wire Sparse Verify Links.
 Extraction Language OCaml.
 Set Extraction AccessOpaque.
 Extraction "model.ml"
@@ -12,4 +12,5 @@ Extraction "model.ml"
   Bisync.classify Bisync.resolve Bisync.bisync Bisync.run_step Bisync.empty_world Bisync.actions_of Bisync.converged
   Engine.run Engine.exit_status
   Wire.should_compress_smart Wire.sniff_receive_file Wire.sniff_apply_delta Sparse.receive_sparse Sparse.detect Sparse.pack
-  Verify.verify Verify.verify_exit.
+  Verify.verify Verify.verify_exit
+  Links.sync_link Links.wrote_through.
